@@ -44,4 +44,8 @@ def handle : List Sx → Sx
     | _, _, _, _ => Sx.bad
   | _ => Sx.bad
 
+/-- request names served by this module (collected into `JinjaV.Wire.All` by tools/gen_wire_all.py) -/
+def handlers : List (String × (List Sx → Sx)) :=
+  [("loop", handle)]
+
 end JinjaV.Wire.Loop
